@@ -18,8 +18,23 @@ MaxWS == 1024
 ABytesPerLine == 48
 AColumns == 64
 
+\* Whitespace is what Go's bytes.TrimSpace removes: the six ASCII characters and, in UTF-8, U+0085, U+00A0, U+1680,
+\* U+2000..U+200A, U+2028, U+2029, U+202F, U+205F, U+3000.  (The implementation's notion, modelled as it is.)
 WSBytes == {SP, TAB, CR, LF, 11, 12}
-IsWS(l) == \A i \in 1..Len(l) : l[i] \in WSBytes
+\* length of the whitespace token at position i of l (0: none)
+WSTok(l, i) ==
+  LET n == Len(l)
+      b(k) == IF i + k <= n THEN l[i + k] ELSE 0 - 1
+  IN IF l[i] \in WSBytes THEN 1
+     ELSE IF l[i] = 194 /\ b(1) \in {133, 160} THEN 2
+     ELSE IF l[i] = 225 /\ b(1) = 154 /\ b(2) = 128 THEN 3
+     ELSE IF l[i] = 226 /\ b(1) = 128 /\ b(2) \in (128..138) \cup {168, 169, 175} THEN 3
+     ELSE IF l[i] = 226 /\ b(1) = 129 /\ b(2) = 159 THEN 3
+     ELSE IF l[i] = 227 /\ b(1) = 128 /\ b(2) = 128 THEN 3
+     ELSE 0
+RECURSIVE WSFrom(_, _)
+WSFrom(l, i) == IF i > Len(l) THEN TRUE ELSE LET k == WSTok(l, i) IN IF k = 0 THEN FALSE ELSE WSFrom(l, i + k)
+IsWS(l) == WSFrom(l, 1)
 
 LFPos(t) == SetToSortSeq({j \in 1..Len(t) : t[j] = LF}, <)
 \* lines split on LF; what follows the last LF is a line only if non-empty
